@@ -29,8 +29,9 @@ TIE = {1: "tie:FontSubsetter", 2: "tie:/W,/DW != encode_W", 4: "tie:ToUnicode !=
 PROP = {1: "prop:decode_W != source advance", 2: "prop:strict ToUnicode reader != source code point", 4: "prop:TJ codes do not select the laid-out glyphs",
         8: "prop:TJ pen outside the proved bound", 16: "prop:font encoding (Identity-V for vertical text)", 32: "prop:embedded program glyph differs from source glyph",
         64: "prop:toPath advance != TextWidth", 128: "prop:panic/error", 256: "info:lenient ToUnicode reader fails too",
-        1024: "prop:used .notdef has an empty outline in the subset program"}
-PROP_MASK = 1 | 2 | 4 | 8 | 16 | 32 | 64 | 128 | 1024
+        1024: "prop:used .notdef has an empty outline in the subset program",
+        2048: "prop:toPath does not place every glyph at the sum of the preceding advances (or advance/TextWidth != that sum)"}
+PROP_MASK = 1 | 2 | 4 | 8 | 16 | 32 | 64 | 128 | 1024 | 2048
 
 
 def names(tbl, fl):
